@@ -167,6 +167,18 @@ func (e *Exec) sprintf(format StrV, args SliceV) StrV {
 				parts = append(parts, opaquePart{kind: 1, dec: x, uns: !signed})
 				continue
 			}
+			if x.S.K == SFP64 && plain && verb == 'v' {
+				parts = append(parts, opaquePart{kind: 5, dec: x})
+				continue
+			}
+			if x.S.K == SBool && plain && (verb == 'v' || verb == 't') {
+				if e.Branch(x) {
+					lit("true")
+				} else {
+					lit("false")
+				}
+				continue
+			}
 		case StrV:
 			if plain && (verb == 's' || verb == 'v') {
 				if x.opq != nil {
